@@ -261,13 +261,31 @@ class PageRenderer:
                     if isinstance(header_copy.text, pl.DataFrame)
                     else len(header_copy.text)
                 )
+                subline_columns = (
+                    document.rtf_body.subline_by
+                    if is_single_body(document.rtf_body)
+                    and document.rtf_body.subline_by
+                    else []
+                )
+                # Positions of the original columns the widths were given for:
+                # all of them, or (documented short form) those left once the
+                # subline_by columns are gone
+                given_for = [
+                    j for j, col in enumerate(all_columns) if col not in subline_columns
+                ]
+                if len(header_copy.col_rel_width) == len(all_columns):
+                    given_for = list(range(len(all_columns)))
                 if (
-                    len(kept) < len(all_columns)
-                    and len(header_copy.col_rel_width) == len(all_columns)
+                    len(kept) < len(given_for)
+                    and len(header_copy.col_rel_width) == len(given_for)
                     and n_text == len(kept)
                 ):
                     header_copy.col_rel_width = [
-                        header_copy.col_rel_width[j] for j in kept
+                        w
+                        for j, w in zip(
+                            given_for, header_copy.col_rel_width, strict=True
+                        )
+                        if j in kept
                     ]
 
             # Apply top border for first page/first header
